@@ -87,9 +87,11 @@ func (c *canonCtx) canon(e ast.Expr) string {
 	case *ast.BasicLit:
 		return x.Value
 	case *ast.SelectorExpr:
-		if sel := c.info.Selections[x]; sel == nil {
-			// qualified identifier
-			return c.canon(x.X) + "." + x.Sel.Name
+		if id, isId := x.X.(*ast.Ident); isId {
+			if _, isPkg := c.info.ObjectOf(id).(*types.PkgName); isPkg {
+				// qualified identifier
+				return id.Name + "." + x.Sel.Name
+			}
 		}
 		base := c.canon(x.X)
 		base = strings.TrimPrefix(base, "*") // (*p).f == p.f
@@ -176,8 +178,10 @@ func varsOf(info *types.Info, e ast.Expr) (objs, derefs map[*types.Var]bool) {
 		case *ast.Ident:
 			mark(x, deref)
 		case *ast.SelectorExpr:
-			if info.Selections[x] == nil {
-				return // qualified identifier
+			if id, isId := x.X.(*ast.Ident); isId {
+				if _, isPkg := info.ObjectOf(id).(*types.PkgName); isPkg {
+					return // qualified identifier
+				}
 			}
 			walk(x.X, true)
 		case *ast.StarExpr:
